@@ -32,7 +32,7 @@ class Rec(object):
     def reset(self):
         self.calls = []
         self.built = 0  # how often the handler factory of `lazy` ran
-        self.seen = {"ran": False, "quiet": False, "level": 0, "inter": True}
+        self.seen = {"ran": False, "quiet": False, "level": 0, "inter": True, "ansiOut": False, "ansiErr": False}
         self.answer = "none"
         self.answer2 = "none"
         self.args = []
@@ -80,12 +80,25 @@ def _env():
 
         def handle(self, args, io, command):
             REC.calls.append(self.cid)
-            for k, f in enumerate(LEVELS):
-                io.write_line("<info>[T%d]</info>" % (k + 1), f)
-                io.error_line("<info>[T%d]</info>" % (k + 1), f)
+            # one tagged line per verbosity level on each stream, each through another of the eight write routes
+            # (the level-1 line is styled: decoration is judged on it; raw routes carry plain text)
+            io.write_line("<info>[T1]</info>", LEVELS[0])
+            io.write("<info>[T2]</info>\n", LEVELS[1])
+            io.write_raw("[T3]\n", LEVELS[2])
+            io.write_line_raw("[T4]", LEVELS[3])
+            io.error_line("<info>[T1]</info>", LEVELS[0])
+            io.error_raw("[T2]\n", LEVELS[1])
+            io.error_line_raw("[T3]", LEVELS[2])
+            io.error("<info>[T4]</info>\n", LEVELS[3])
             REC.seen = {"ran": True, "quiet": bool(io.is_quiet()),
                         "level": int(bool(io.is_verbose())) + int(bool(io.is_very_verbose())) + int(bool(io.is_debug())),
-                        "inter": bool(io.is_interactive())}
+                        "inter": bool(io.is_interactive()),
+                        "ansiOut": bool(io.output.supports_ansi()), "ansiErr": bool(io.error_output.supports_ansi())}
+            # what a component does (progress indicator, section): control sequences only where the output says it takes them
+            if io.output.supports_ansi():
+                io.write_raw("\x1b[2K")
+            if io.error_output.supports_ansi():
+                io.error_raw("\x1b[2K")
             ans = ConfirmationQuestion("Sure?", True).ask(io)
             REC.answer = "default" if ans is True else ("typed" if ans is False else "other")
             # two questions WITHOUT a default: not interactive -> None, nothing read, nothing asked
